@@ -88,7 +88,7 @@ func (s *Sess) call(in ssa.CallInstruction, st *State) []Val {
 	if s.inlineDepth == 0 {
 		s.checkAssertsAt(in, name, st)
 	}
-	if ct == nil && callee != nil && s.shouldInline(callee) {
+	if (ct == nil || ct.Synth) && callee != nil && s.shouldInline(callee) {
 		if r, ok := s.inlineCall(callee, args, st); ok {
 			return r
 		}
@@ -140,7 +140,7 @@ func (s *Sess) call(in ssa.CallInstruction, st *State) []Val {
 			}
 			f, err := ce.evalBool(r.E)
 			if err != nil {
-				s.unsupp("call %s requires %q: %v", name, r.Src, err)
+				s.detached("call %s requires %q: %v", name, r.Src, err)
 				continue
 			}
 			s.oblige(st, "pre", fmt.Sprintf("pre.%s.%s@%d", shortName(name), labelOr(r.Label, i), s.callOrd(in)), f, in.Pos(), "precondition of "+name+": "+r.Src)
@@ -174,7 +174,7 @@ func (s *Sess) call(in ssa.CallInstruction, st *State) []Val {
 			}
 			f, err := ce.evalAssume(e.E)
 			if err != nil {
-				s.unsupp("call %s ensures %q: %v", name, e.Src, err)
+				s.detached("call %s ensures %q: %v", name, e.Src, err)
 				continue
 			}
 			s.assumeAt(st, f)
@@ -474,7 +474,7 @@ func (s *Sess) checkAssertsAt(in ssa.CallInstruction, name string, st *State) {
 		c.lookup = func(n string) (Val, bool) { return s.resolveLocalAt(instr, n, st) }
 		f, err := c.evalBool(a.C.E)
 		if err != nil {
-			s.unsupp("assert at %s#%d %q: %v", a.Callee, a.Ord, a.C.Src, err)
+			s.detached("assert at %s#%d %q: %v", a.Callee, a.Ord, a.C.Src, err)
 			continue
 		}
 		s.oblige(st, "assert", "assert."+labelOr(a.C.Label, a.Ord), f, in.Pos(), a.C.Src)
@@ -744,7 +744,7 @@ func (s *Sess) checkAssertsAtReturn(ret *ssa.Return, st *State) {
 		c.lookup = func(n string) (Val, bool) { return s.resolveLocalAt(ret, n, st) }
 		f, err := c.evalBool(a.C.E)
 		if err != nil {
-			s.unsupp("assert at return#%d %q: %v", a.Ord, a.C.Src, err)
+			s.detached("assert at return#%d %q: %v", a.Ord, a.C.Src, err)
 			continue
 		}
 		s.oblige(st, "assert", "assert."+labelOr(a.C.Label, a.Ord), f, ret.Pos(), a.C.Src)
@@ -808,10 +808,21 @@ func (s *Sess) shouldInline(f *ssa.Function) bool {
 	if f.Blocks == nil || s.inlineDepth >= 3 || len(f.Blocks) > 10 || f == s.fn {
 		return false
 	}
-	if f.Signature.Recv() == nil || !strings.HasPrefix(f.Name(), "Get") || f.Signature.Params().Len() != 0 {
-		return false
+	for _, g := range s.inlineStack {
+		if g == f {
+			return false // recursion
+		}
 	}
-	if _, ok := f.Signature.Recv().Type().Underlying().(*types.Pointer); !ok {
+	getter := f.Signature.Recv() != nil && strings.HasPrefix(f.Name(), "Get") && f.Signature.Params().Len() == 0
+	if getter {
+		if _, ok := f.Signature.Recv().Type().Underlying().(*types.Pointer); !ok {
+			getter = false
+		}
+	}
+	// small loop-free helpers of the repository without a contract are executed in place: exact,
+	// and it keeps an "extract helper" refactoring from detaching the caller's proof
+	helper := s.eng.inRepo(f) && len(f.Blocks) <= 6 && f.Synthetic == ""
+	if !getter && !helper {
 		return false
 	}
 	n := 0
@@ -824,17 +835,22 @@ func (s *Sess) shouldInline(f *ssa.Function) bool {
 		for _, in := range b.Instrs {
 			n++
 			switch x := in.(type) {
-			case *ssa.Defer, *ssa.Go, *ssa.Select, *ssa.Panic:
+			case *ssa.Defer, *ssa.Go, *ssa.Select, *ssa.Panic, *ssa.MakeClosure, *ssa.Range:
 				return false
 			case ssa.CallInstruction:
-				c := x.Common().StaticCallee()
-				if c == nil || !strings.HasPrefix(c.Name(), "Get") {
-					return false
+				if getter {
+					c := x.Common().StaticCallee()
+					if c == nil || !strings.HasPrefix(c.Name(), "Get") {
+						return false
+					}
 				}
 			}
 		}
 	}
-	return n <= 60
+	if getter {
+		return n <= 60
+	}
+	return n <= 40
 }
 
 // inlineCall executes the callee's body symbolically in the caller's session.
@@ -847,9 +863,11 @@ func (s *Sess) inlineCall(f *ssa.Function, args []Val, st *State) ([]Val, bool) 
 	s.namePrefix = fmt.Sprintf("%si%d.", savedPrefix, s.nInline)
 	s.rets = nil
 	s.inlineDepth++
+	s.inlineStack = append(s.inlineStack, f)
 	defer func() {
 		s.namePrefix, s.rets = savedPrefix, savedRets
 		s.inlineDepth--
+		s.inlineStack = s.inlineStack[:len(s.inlineStack)-1]
 		s.fn = savedFn
 	}()
 	for i, p := range f.Params {
